@@ -279,8 +279,9 @@ func (c *Client) List(prefix string, opts ...backend.ListOption) (*backend.ListR
 			names = append(names, name)
 		}
 
-		if int64(len(names)) < maxKeys {
-			// Continue iterating pages to get more keys
+		if !options.Paginated || int64(len(names)) < maxKeys {
+			// Continue iterating pages to get more keys. Without pagination
+			// the caller cannot ask for the rest, so all pages are read.
 			return true
 		}
 
